@@ -30,12 +30,16 @@ type Gen struct {
 	fnSet   bool
 	Pre     []node.Type // definitions to run before the program (functions)
 	Mirror  *Session    // second session receiving the same preset globals (twin comparisons)
+	Ref     *REval      // reference evaluator receiving the same preset globals
 }
 
 func (g *Gen) setGlobal(name string, v value.Type) {
 	g.S.M.SetGlobal(name, v)
 	if g.Mirror != nil {
 		g.Mirror.M.SetGlobal(name, v)
+	}
+	if g.Ref != nil {
+		g.Ref.glob[name] = FromValue(v)
 	}
 }
 
